@@ -96,6 +96,12 @@ func (P *Prog) checkEffectsRule(r *Result, g *modCG, rule string, fns []*ssa.Fun
 		for _, ef := range ws {
 			nw++
 			for _, c := range ef.classes {
+				// state that execution code never reads carries nothing between executions (a counter, a timing)
+				if c.class == mcGlobal {
+					if g, isG := c.rt.v.(*ssa.Global); isG && P.writeOnlyInExecution(g) {
+						continue
+					}
+				}
 				if why, isBad := forbidden[c.class]; isBad {
 					if pos == "" {
 						pos = P.ipos(ef.w.in)
